@@ -22,6 +22,15 @@ pub open spec fn arc_generic_eq(a: Arc<LuaGenericType>, b: Arc<LuaGenericType>) 
     <Arc<LuaGenericType> as PartialEqSpec>::obeys_eq_spec() && a.eq_spec(&b)
 }
 
+/// the member list of a union: what LuaUnionType::into_vec returns (proved on its real text)
+pub open spec fn sp_into_vec(u: LuaUnionType) -> Seq<LuaType> {
+    match u {
+        LuaUnionType::Basic(b) => sp_basic_members(b),
+        LuaUnionType::Nullable(t) => seq![t, LuaType::Nil],
+        LuaUnionType::Multi(v) => v@,
+    }
+}
+
 pub open spec fn guard_wf(g: TypeCheckGuard) -> bool { 0 <= g.stack_level <= 100 }
 
 pub open spec fn ctx_frame(a: &TypeCheckContext, b: &TypeCheckContext) -> bool {
@@ -62,6 +71,7 @@ pub open spec fn fast_eq_ub(a: LuaType, b: LuaType) -> bool {
 
 pub open spec fn sp_is_boolean(t: LuaType) -> bool { t is BooleanConst || t is Boolean || t is DocBooleanConst }
 
+pub open spec fn sp_is_number(t: LuaType) -> bool { t is Number || t is Integer || t is IntegerConst || t is DocIntegerConst || t is FloatConst }
 pub open spec fn sp_tnm(e: TypeCheckFailReason) -> bool { e is TypeNotMatch || e is TypeNotMatchWithReason }
 pub open spec fn res_no_mismatch(r: TypeCheckResult) -> bool { r is Ok || (r matches Err(e) && !sp_tnm(e)) }
 
@@ -81,7 +91,7 @@ pub open spec fn head_ok(db: &DbIndex, s: LuaType, c: LuaType, lvl: int) -> bool
             None => {
                 if c is Intersection && !(s is Intersection) {
                     // some component is accepted (the loop stops at the first one; a failing earlier component is skipped)
-                    lvl < 100 && exists|k: int| 0 <= k < c->Intersection_0.types@.len() && #[trigger] head_ok(db, s, c->Intersection_0.types@[k], lvl + 1)
+                    lvl < 100 && exists|k: int| 0 <= k < c->Intersection_0.types@.len() && head_ok(db, s, #[trigger] c->Intersection_0.types@[k], lvl + 1)
                 } else {
                     match s {
                         LuaType::Unknown | LuaType::Any => true,
@@ -108,7 +118,7 @@ pub open spec fn cx_ok(db: &DbIndex, s: LuaType, c: LuaType, lvl: int) -> bool
         match s {
             LuaType::Union(u) => match c {
                 // union against union: every member of the expected... of the compact union must be accepted by the source union
-                LuaType::Union(cu) => lvl + 1 < 100 && forall|k: int| 0 <= k < sp_into_vec(*cu).len() ==> #[trigger] head_ok(db, s, sp_into_vec(*cu)[k], lvl + 2),
+                LuaType::Union(cu) => lvl + 1 < 100 && forall|k: int| 0 <= k < sp_into_vec(*cu).len() ==> head_ok(db, s, #[trigger] sp_into_vec(*cu)[k], lvl + 2),
                 // the first member decides on its own (a later member is reached only if every earlier one fails WITH a mismatch)
                 _ => sp_into_vec(*u).len() > 0 && head_ok(db, sp_into_vec(*u)[0], c, lvl + 1),
             },
@@ -121,7 +131,7 @@ pub open spec fn cx_ok(db: &DbIndex, s: LuaType, c: LuaType, lvl: int) -> bool
 /// `c` is head-accepted by SOME member of the union `s` (any position)
 pub open spec fn some_member_ok(db: &DbIndex, s: LuaType, c: LuaType, lvl: int) -> bool {
     s matches LuaType::Union(u) && !(c is Union) && 0 <= lvl < 100
-        && exists|k: int| 0 <= k < sp_into_vec(*u).len() && #[trigger] head_ok(db, sp_into_vec(*u)[k], c, lvl + 1)
+        && exists|k: int| 0 <= k < sp_into_vec(*u).len() && head_ok(db, #[trigger] sp_into_vec(*u)[k], c, lvl + 1)
 }
 
 /// the head guards let a `Union` source through to its arm (or accept outright)
@@ -143,7 +153,7 @@ pub open spec fn head_err(db: &DbIndex, s: LuaType, c: LuaType, lvl: int) -> boo
             None => {
                 if c is Intersection && !(s is Intersection) {
                     (lvl >= 100 && c->Intersection_0.types@.len() > 0)
-                        || forall|k: int| 0 <= k < c->Intersection_0.types@.len() ==> #[trigger] head_err(db, s, c->Intersection_0.types@[k], lvl + 1)
+                        || forall|k: int| 0 <= k < c->Intersection_0.types@.len() ==> head_err(db, s, #[trigger] c->Intersection_0.types@[k], lvl + 1)
                 } else {
                     match s {
                         LuaType::TplRef(tpl) => tpl.param.constraint matches Some(sc) && (lvl >= 100 || head_err(db, sc, c, lvl + 1)),
